@@ -45,7 +45,13 @@ func simProp(id string, quick, thorough int, level, rule string) *propCfg {
 		Assumptions: simAssumptions, Real: commonReal, Stub: commonStub}
 }
 
+var ioReal = []string{"every line of hprose-golang's io package (encoder, decoder, pools, formatter), uninstrumented code paths included"}
+
 var props = map[string]*propCfg{
+	"C05": {ID: "C05", Quick: 8000, Thorough: 400000, PerProc: 100, Level: "fault_enumeration", RunTimeout: 300,
+		Rule: "one run = one valid stream (1-4 values from the type-directed generator encoded by the real encoder in simple or reference mode; one run in six truncated, one in six followed by trailing bytes) decoded through the simulated io.Reader under: every two-way split position, every fixed chunk size 1-64 and 255/256/257, 299/300/301, 511/512/513, each with EOF reported with or after the last chunk, five buffer sizes and pooled decoders used before on a failing input, plus 24 tape-drawn chunk sequences with zero-byte reads of which 8 with an injected I/O error at a tape-chosen offset; evaluations counts (stream, fragmentation) pairs, distinct_nontrivial counts the pairs of this run set in which the reader was read more than twice (streams differ between runs by construction: distinct run seeds)",
+		Assumptions: []string{"the in-memory decoder is the reference: a defect shared by both paths is invisible to this differential oracle", "values are compared with reflect.DeepEqual (NaN-aware)"},
+		Real: ioReal, Stub: []string{"the io.Reader handed to the decoder (simReader: fragmentation, zero-byte reads, EOF placement, injected error)"}},
 	"C09": simProp("C09", 3000, 150000, "exploration", "2-8 concurrent callers (1-2 calls each, unique nonces) on one client over one multiplexed connection (socket, websocket over net/http and fasthttp, udp) against (a) the real service whose functions park until the controller releases them, so the server completion order is a tape decision, with and without worker pool, (b) a scripted raw peer that answers in any order, answers twice, injects responses with ids that match no pending call, with the request counter preset just below its wrap-around, (c) reverse calls from the service to 1-2 providers over mock/socket/websocket"),
 	"C11": simProp("C11", 2400, 60000, "exploration", "the matrix poison (33 kinds: panics of six value kinds in service functions, missing-method handler, invoke and IO plugins, timeout-wrapped functions; undecodable, truncated, type-mismatched, under- and over-supplied arguments; raw-peer frames that are short, carry a bad CRC or lie about their length, in both directions; websocket messages of 0-3 bytes in both directions; requests and responses too large for udp) x transport kind is enumerated by run index; each run has healthy sentinel calls before, concurrently with (same connection and another client) and after the poison plus a fresh client at the end, worker pool on/off from the tape; the process must survive (a dead worker process is classified by its crash trace)"),
 	"C15": simProp("C15", 3000, 100000, "exploration", "histories of 1-25 operations over {Use(1-3 handlers), Unuse(1-3 handlers), Call} on a client and on a service (mock transport) drawn from a pool of nine handlers with pairwise distinct code pointers (invoke handlers, IO handlers, two-sided plugins, plugin objects), some calls short-circuited at a tape-chosen handler, checked mark by mark against a list model; a second pool with two instances of one plugin type and two closures of one literal; and concurrent runs (1-3 callers parking inside handlers, 1-2 tasks running Use/Unuse, statement-level preemption inside the plugin manager) whose per-manager histories are checked for linearizability with porcupine"),
